@@ -8,23 +8,29 @@
                parents / children, the media hook exiting:   work without the lock; lock; commit; emit; unlock
      feed      the goroutine started by the feed command.  Variant "pinned": it commits and emits WITHOUT
                taking the lock (the tree as first received); "fixed": like load.
+     Hook      one of the loads may be the media program: its work (the program running) is under nobody's control
+               and need not ever end - no fairness for it.  Variant "hookheld": that goroutine takes the lock BEFORE
+               it waits for the program (as if CombinedOutput were called under State.m): every key then waits for
+               the program to exit - KeysFinish is refuted (MC_UIConc_hookheld.cfg), while it holds in "fixed"
+               however long the program runs (MC_UIConc_hook.cfg).
    The data itself is abstracted to a version counter; what matters is who touches it while holding what. *)
 EXTENDS Integers, Sequences, FiniteSets, TLC
-CONSTANTS Keys, Loads, Variant
+CONSTANTS Keys, Loads, Variant, Hook
 
 Procs == Keys \cup Loads \cup {"poll", "feed"}
 VARIABLES pc, holder, version, emitting, writers, done
 vars == <<pc, holder, version, emitting, writers, done>>
 
-Init == /\ pc = [p \in Procs |-> IF p \in Loads \cup {"feed"} THEN "work" ELSE "want"]
+HeldHook(p) == Variant = "hookheld" /\ p = Hook
+Init == /\ pc = [p \in Procs |-> IF HeldHook(p) THEN "want" ELSE IF p \in Loads \cup {"feed"} THEN "work" ELSE "want"]
         /\ holder = "none" /\ version = 0 /\ emitting = {} /\ writers = {} /\ done = {}
 
-Locked(p) == Variant = "fixed" \/ p # "feed"          \* does this process use the mutex?
+Locked(p) == Variant # "pinned" \/ p # "feed"          \* does this process use the mutex?
 
-Work(p)    == pc[p] = "work" /\ pc' = [pc EXCEPT ![p] = "want"] /\ UNCHANGED <<holder, version, emitting, writers, done>>
+Work(p)    == pc[p] = "work" /\ pc' = [pc EXCEPT ![p] = IF HeldHook(p) THEN "mutate" ELSE "want"] /\ UNCHANGED <<holder, version, emitting, writers, done>>
 Acquire(p) == /\ pc[p] = "want"
               /\ IF Locked(p) THEN holder = "none" /\ holder' = p ELSE UNCHANGED holder
-              /\ pc' = [pc EXCEPT ![p] = "mutate"] /\ UNCHANGED <<version, emitting, writers, done>>
+              /\ pc' = [pc EXCEPT ![p] = IF HeldHook(p) THEN "work" ELSE "mutate"] /\ UNCHANGED <<version, emitting, writers, done>>
 (* the mutation takes time: another process may be in the middle of its own if nothing excludes it *)
 BeginMutate(p) == /\ pc[p] = "mutate" /\ writers' = writers \cup {p}
                   /\ pc' = [pc EXCEPT ![p] = "mutating"] /\ UNCHANGED <<holder, version, emitting, done>>
@@ -37,9 +43,10 @@ EndEmit(p)     == /\ pc[p] = "emitting" /\ emitting' = emitting \ {p}
 Release(p)     == /\ pc[p] = "release"
                   /\ IF Locked(p) THEN holder' = "none" ELSE UNCHANGED holder
                   /\ pc' = [pc EXCEPT ![p] = "done"] /\ done' = done \cup {p} /\ UNCHANGED <<version, emitting, writers>>
-Step(p) == Work(p) \/ Acquire(p) \/ BeginMutate(p) \/ EndMutate(p) \/ BeginEmit(p) \/ EndEmit(p) \/ Release(p)
+Own(p)  == Acquire(p) \/ BeginMutate(p) \/ EndMutate(p) \/ BeginEmit(p) \/ EndEmit(p) \/ Release(p)
+Step(p) == Work(p) \/ Own(p)
 Next == \E p \in Procs : Step(p)
-Fairness == \A p \in Procs : SF_vars(Acquire(p)) /\ WF_vars(Step(p))
+Fairness == \A p \in Procs : SF_vars(Acquire(p)) /\ WF_vars(Own(p)) /\ (p # Hook => WF_vars(Work(p)))
 Spec == Init /\ [][Next]_vars /\ Fairness
 
 (* C08 *)
@@ -49,4 +56,5 @@ EmitOnlyByHolder   == \A p \in emitting : holder = p
 OneFrameAtATime    == Cardinality(emitting) <= 1
 NoDeadlock         == (done = Procs) \/ ENABLED Next
 EveryoneFinishes   == <>(done = Procs)                 \* no deadlock, every issued key is processed
+KeysFinish         == <>(Keys \subseteq done)          \* ... however long the media program runs
 =============================================================================
